@@ -1,4 +1,6 @@
 """Shared driver for the wire-format properties C02, C04, C05 (DESIGN.md section 4; spec/wire)."""
+import json
+import os
 import random
 import time
 
@@ -88,6 +90,26 @@ def run(prop, tier, extra=None):
         cat = sorted({vlib.canon_hash(s): s for s in cat}.values(), key=lambda s: (s["id"], s["rep"]))
         p3 = vlib.Pipeline(prop, "wire_cat", "wire/CatTrace", "CatTrace_%s.cfg" % prop)
         p3.push(cat, "cat", timeout=3000)
+        if prop in ("C05", "C02"):
+            # re-linking histories: serialise composition a, replace its layers below depth d by those of composition b, judge the
+            # second serialisation.  Feasible triples: same kind of layer at depth d in both, different kinds below it (inventory
+            # from the trace of the run above)
+            kinds = {}
+            with open(os.path.join(p3.dir, "wire_cat-cat.trace.ndjson")) as f:
+                for line in f:
+                    ev = json.loads(line)
+                    if ev.get("e") == "cat":
+                        kinds.setdefault(ev["id"], ev["kinds"])
+            rel, g5 = vlib.tlc_generate("wire/CatRelinkGen", "CatRelinkGen.cfg", timeout=900)
+            feas = [s for s in rel if s["id"] in kinds and s["re"] in kinds and s["id"] < 140 and s["re"] < 140
+                    and s["d"] + 1 < min(len(kinds[s["id"]]), len(kinds[s["re"]]))
+                    and kinds[s["id"]][s["d"]] == kinds[s["re"]][s["d"]] and kinds[s["id"]][s["d"] + 1] != kinds[s["re"]][s["d"] + 1]]
+            feas.sort(key=lambda s: (s["id"], s["re"], s["d"]))
+            if quick:
+                feas = [s for i, s in enumerate(feas) if i % 3 == vlib.seed() % 3]
+            p3.push(feas, "relink", timeout=3000)
+            st2.update({"relink_histories": len(feas), "relink_rule": "composition a serialised, then re-linked at depth d to the lower layers of composition b "
+                        "(every feasible (a, b, d): same kind of layer at d, different kinds below), the second serialisation judged like any other"})
         p3.confirm(v, lambda scen, kind, detail, rec=None: {"family": "wire_cat", "kind": kind, "id": scen.get("id"),
                                                              "lenattr": (rec or {}).get("lenattr"), "next": (rec or {}).get("next"),
                                                              "unaligned": (rec or {}).get("unaligned")})
